@@ -5,7 +5,7 @@
  * and preservation of the invariant (count <= 8 entries, mapped bytes of the
  * first `count` entries <= 8).  Induction over write histories.
  *   DIR 0 RPDO 0 (1400h/1600h), 1 TPDO 0 (1800h/1A00h)
- *   TGT 0 COB-ID :1   1 type :2   2 count (map):0   3..6 mapping entry 1..4
+ *   TGT 0 COB-ID :1   1 type :2   2 count (map):0   3..10 mapping entry 1..8 (OD_MAPS slots)
  *   MODE 2 PRE-OP, 3 OPERATIONAL                                              */
 #define OD_SYNC
 #define OD_RPDO 1
